@@ -447,16 +447,17 @@ def execute(ctx, plan):    # noqa: C901  pylint: disable=too-many-statements,too
 
     def hw_settled(name, now):
         """Mid-run: has this light been quiet long enough that its hardware must show the final colour?
-        direct channels are commanded synchronously; hwfade / software-fade / batched channels need their last
-        tick, which is only guaranteed when the loop has run without a stall for that long (a stall delays MPF's
-        tick timers as well, and everything that became due meanwhile is still being processed at the landing
-        instant)."""
+        direct channels are commanded synchronously (but the refresh at the end of a fade-out comes from a delay
+        callback); hwfade / software-fade / batched channels need their last tick.  Both are only guaranteed when
+        the loop has run without a stall since (a stall delays MPF's own timers as well, and everything that
+        became due meanwhile is still being processed, in deadline order, at the landing instant)."""
         be = LIGHTS[name]["be"]
         quiet_since = max(models[name].last_fade_end(0.0), last_change.get(name, 0.0))
-        if be == "direct":
-            return quiet_since <= now
         if loop.stall_log:
             quiet_since = max(quiet_since, loop.stall_log[-1][1])
+        if be == "direct":
+            # strictly later: at the very instant a fade-out ends its removal callback may still be pending
+            return quiet_since < now
         if be == "hwfade":
             return quiet_since + cfg["hwfade_max_ms"] / 1000.0 + 0.002 < now
         if be == "software":
